@@ -6,7 +6,8 @@ against the declarative clauses of `Reamber/Spec/Hitsound.lean` — the same def
 driver evaluates on the implementation's output (`*_iff` below ties the two forms).  All theorems hold for
 *every* pair of charts and *every* pair of sorting permutations (numpy's quicksort is not stable).
 
-  notes_preserved      hypothesis: every target hold has a length  (counterexample without it: D19d)
+  notes_preserved      domain hypothesis: every target hold has a length — zero and negative lengths included;
+                       a NaN length is not a hold of a chart (`nan_hold_counterexample` documents what happens there)
   counts_le            no hypothesis
   all_placed_if_room   no hypothesis
   no_invention         hypothesis: no source file name contains ';'  (counterexample without it: D19c)
@@ -484,7 +485,8 @@ theorem samplesConservedB_iff (src out : Chart) : samplesConservedB src out = tr
     · simp only [Bool.or_eq_true, beq_iff_eq, decide_eq_true_eq]
       exact Or.inr (h s.offset s.file hf)
 
-/-! ### the hypotheses are needed: counterexamples on the model (the known findings D19c, D19d) -/
+/-! ### the hypotheses are needed: counterexamples on the model (known finding D19c; domain boundary of
+`notes_preserved`) -/
 
 /-- source: one hit at time 0 with the named sample `a;b`; target: one hit at time 0 -/
 def semiSrc : Chart := ⟨[⟨0, 0, none, 0, 0, 0, 0, 5, [97, 59, 98]⟩], [], []⟩
@@ -501,9 +503,16 @@ theorem semicolon_counterexample :
 /-- target: one hold whose length is NaN -/
 def nanTgt : Chart := ⟨[], [⟨0, 1, none, 0, 0, 0, 0, 0, []⟩], []⟩
 
-/-- **D19d** — a hold with a NaN length comes back as a hit. -/
+/-- outside the domain (documentation, not a finding): a row of the hold list with a NaN length comes back as a
+hit, because the tail re-splits the stacked frame by `isnan(length)`. Holds of length 0 or of negative length
+are inside the domain and keep their kind (`notes_preserved`; example below). -/
 theorem nan_hold_counterexample : ¬ NotesPreserved nanTgt (copy ⟨[], [], []⟩ nanTgt) := by
   rw [← notesPreservedB_iff]; decide +kernel
+
+/-- zero-length and negative-length holds keep their kind and length -/
+example : (copy ⟨[⟨0, 0, none, 2, 0, 0, 0, 20, []⟩], [], []⟩
+      ⟨[⟨0, 1, none, 0, 0, 0, 0, 0, []⟩], [⟨0, 0, some 0, 0, 0, 0, 0, 0, []⟩, ⟨5, 0, some (-20), 0, 0, 0, 0, 0, []⟩], []⟩).holds
+    = [⟨0, 0, some 0, 0, 0, 0, 0, 0, []⟩, ⟨5, 0, some (-20), 0, 0, 0, 0, 0, []⟩] := by decide +kernel
 
 /-! ### non-vacuity: the hypotheses are satisfiable on a non-trivial pair, and the model computes -/
 
